@@ -4,7 +4,7 @@
 PID="$1"; PATCH="$(readlink -f "$2")"; TIER="${3:-quick}"
 WT="/tmp/wt_try_${PID}_$$"
 git -C /repo worktree add -f "$WT" HEAD >/dev/null 2>&1 || exit 2
-( cd "$WT" && git apply "$PATCH" ) || { git -C /repo worktree remove --force "$WT"; echo "patch does not apply"; exit 2; }
+( cd "$WT" && { git apply "$PATCH" 2>/dev/null || patch -p1 -s -F3 --no-backup-if-mismatch < "$PATCH"; } ) || { git -C /repo worktree remove --force "$WT"; echo "patch does not apply"; exit 2; }
 cd /verif
 # evidence/ must keep describing /repo: run on a copy of the evidence file name
 cp -f evidence/$PID.json /tmp/ev_$PID_$$.json 2>/dev/null
